@@ -326,6 +326,7 @@ type jobCfg struct {
 	labelNameLenLimit int
 	labelValLenLimit  int
 	bodySizeLimit     int
+	fallback          bool // fallback_scrape_protocol set (a failed body read leaves no content type)
 	relabel           []relabelRule
 }
 
@@ -347,6 +348,9 @@ func (j jobCfg) yaml() string {
 	}
 	if j.bodySizeLimit > 0 {
 		fmt.Fprintf(&sb, "  body_size_limit: %dB\n", j.bodySizeLimit)
+	}
+	if j.fallback {
+		sb.WriteString("  fallback_scrape_protocol: PrometheusText0.0.4\n")
 	}
 	if len(j.relabel) > 0 {
 		sb.WriteString("  metric_relabel_configs:\n")
@@ -375,6 +379,7 @@ func genJob(r *rand.Rand, i int) jobCfg {
 	if r.IntN(3) == 0 {
 		j.bodySizeLimit = 6000
 	}
+	j.fallback = r.IntN(2) == 0
 	add := func(rr relabelRule) {
 		rr.re = regexp.MustCompile("^(?s:" + rr.regex + ")$")
 		j.relabel = append(j.relabel, rr)
@@ -416,6 +421,10 @@ type response struct {
 	served  bool
 	size    int
 	at      int64 // wall clock (ms) at which the handler picked this response
+	// kind cut: the declared Content-Length is the full body, the connection is closed after
+	// cutFrac of it (moved back to a line boundary if cutAtLine)
+	cutFrac   float64
+	cutAtLine bool
 }
 
 type seriesGen struct {
@@ -533,6 +542,8 @@ func genPlan(r *rand.Rand, j *jobCfg, n int) []*response {
 			resp.kind = "timeout"
 		case x < 8:
 			resp.kind = "garbage"
+		case x < 10 && k > 1:
+			resp.kind = "cut" // the connection is closed in the middle of the body
 		}
 		// marker first (alignment check); value = index of this response
 		resp.lines = append(resp.lines, line{lbls: labels.FromStrings(labels.MetricName, "seq_marker"), v: float64(k)})
@@ -591,6 +602,9 @@ func genPlan(r *rand.Rand, j *jobCfg, n int) []*response {
 		if resp.kind == "garbage" {
 			resp.garbage = r.IntN(len(resp.lines) + 1)
 		}
+		if resp.kind == "cut" {
+			resp.cutFrac, resp.cutAtLine = 0.2+0.7*r.Float64(), r.IntN(2) == 0
+		}
 		plan = append(plan, resp)
 	}
 	return plan
@@ -616,7 +630,7 @@ func (t *target) handler(w http.ResponseWriter, req *http.Request) {
 	}
 	now := time.Now().UnixMilli()
 	var sb strings.Builder
-	if resp.kind == "ok" || resp.kind == "garbage" {
+	if resp.kind == "ok" || resp.kind == "garbage" || resp.kind == "cut" {
 		sb.WriteString("# HELP m a generated metric\n# TYPE m gauge\n")
 		for i := range resp.lines {
 			if resp.kind == "garbage" && i == resp.garbage {
@@ -648,6 +662,24 @@ func (t *target) handler(w http.ResponseWriter, req *http.Request) {
 		case <-req.Context().Done():
 		case <-time.After(4 * t.job.interval):
 		}
+		return
+	case "cut":
+		body := sb.String()
+		n := int(resp.cutFrac * float64(len(body)))
+		if resp.cutAtLine {
+			if i := strings.LastIndexByte(body[:n], '\n'); i >= 0 {
+				n = i + 1
+			}
+		}
+		if hj, ok := w.(http.Hijacker); ok {
+			if conn, bw, err := hj.Hijack(); err == nil {
+				fmt.Fprintf(bw, "HTTP/1.1 200 OK\r\nContent-Type: text/plain; version=0.0.4; charset=utf-8\r\nContent-Length: %d\r\n\r\n%s", len(body), body[:n])
+				bw.Flush()
+				conn.Close()
+				return
+			}
+		}
+		http.Error(w, "boom", http.StatusInternalServerError)
 		return
 	}
 	w.Header().Set("Content-Type", "text/plain; version=0.0.4; charset=utf-8")
@@ -722,7 +754,7 @@ func (t *target) model(resp *response) modelled {
 	m := modelled{}
 	j := t.job
 	switch resp.kind {
-	case "http500", "timeout":
+	case "http500", "timeout", "cut":
 		m.outcome, m.why, m.fetchFail = vFail, resp.kind, true
 		return m
 	case "empty":
@@ -1370,10 +1402,10 @@ func analyse(c *core.Case, t *target, sess []*session, anyRemoved bool) stats {
 			if len(sc.normal) > 0 {
 				c.Violatef(kFailedCommitted, "target %s scrape %d at %d failed (up=0, %s %s) but %d samples were committed, e.g. %s", t.id, k-1, sc.t, resp.kind, m.why, len(sc.normal), sc.normal[0].lset)
 			}
-			if resp.kind == "http500" {
+			if resp.kind == "http500" || resp.kind == "cut" {
 				for _, n := range []string{"scrape_samples_scraped", "scrape_samples_post_metric_relabeling", "scrape_series_added"} {
 					if sc.report[n] != 0 {
-						c.Violatef(kReport, "target %s scrape %d (HTTP 500): %s=%v, want 0", t.id, k-1, n, sc.report[n])
+						c.Violatef(kReport, "target %s scrape %d (%s: no body was received in full): %s=%v, want 0", t.id, k-1, resp.kind, n, sc.report[n])
 					}
 				}
 			}
